@@ -1,13 +1,208 @@
-//! c04: bounded stand-in (E3) -- see DESIGN.md section 5
-#![allow(dead_code, unused_imports)]
+//! C04: parsing untrusted bytes never panics, aborts or hangs (bounded stand-in for the nom layer and the entry points
+//! that are not under contract).  Hostile inputs run in worker processes (2 MiB thread stack, address-space limit,
+//! watchdog), so panics, aborts, stack overflows, allocation failures and hangs are all observed as exit statuses.
+#![allow(dead_code)]
+use crate::c02;
 use crate::common::*;
 use crate::gen::*;
+use lopdf::content::Content;
+use lopdf::{Document, Object, Stream};
 use serde_json::{json, Value};
+use std::io::{BufRead, BufReader, Write};
+use std::process::{Command, Stdio};
+use std::time::{Duration, Instant};
 
-pub fn run(_thorough: bool) -> Report {
-    Report::new("not built yet", false)
+const EXTREMES: &[&str] = &["0", "1", "-1", "255", "256", "65535", "65536", "2147483647", "2147483648", "4294967295", "4294967296", "9223372036854775807", "9223372036854775808", "18446744073709551615", "18446744073709551616", "99999999999999999999999", "-9223372036854775808"];
+
+fn seeds() -> Vec<(String, Vec<u8>)> {
+    let mut v = vec![];
+    let st = |xref: usize, objstm: bool, il: bool| c02::Style { eol: 0, ws: 0, strs: 0, names: 0, nums: 0, order: 0, xref, objstm, indirect_len: il, junk: false };
+    v.push(("table".to_string(), c02::render(&c02::abstract_doc(1), &st(1, false, true))));
+    v.push(("xref-stream".to_string(), c02::render(&c02::abstract_doc(0), &st(2, false, false))));
+    v.push(("xref-stream-predictor-objstm".to_string(), c02::render(&c02::abstract_doc(1), &st(5, true, false))));
+    // incremental (Prev chain)
+    let mut d = build(&DocSpec { objects: vec![((1, 0), name(b"A")), ((2, 0), lit(b"x"))], xref_stream: false, version: "1.5".into(), extra_trailer: false, max_id_slack: 0 });
+    let mut base = vec![]; d.save_to(&mut base).unwrap();
+    let prev = Document::load_mem(&base).unwrap();
+    let mut inc = lopdf::IncrementalDocument::create_from(base, prev);
+    inc.new_document.objects.insert((2, 0), lit(b"y")); let mut out = vec![]; inc.save_to(&mut out).unwrap();
+    v.push(("incremental".to_string(), out));
+    v
+}
+fn content_seed() -> Vec<u8> { b"q 1 0 0 1 10 20.5 cm BT /F1 12 Tf [(a(b)c) -120 <00ff>] TJ (x\\n\\051) ' ET BI /W 2 /H 2 /BPC 8 /CS /RGB ID 123456789012 EI << /K [1 2] >> BDC Q".to_vec() }
+fn cmap_seed() -> Vec<u8> { b"/CIDInit /ProcSet findresource begin 12 dict begin begincmap /CIDSystemInfo << /Registry (Adobe) /Ordering (UCS) /Supplement 0 >> def /CMapName /Adobe-Identity-UCS def /CMapType 2 def 1 begincodespacerange <0000> <FFFF> endcodespacerange 2 beginbfchar <0003> <0020> <0010> <D83DDE00> endbfchar 2 beginbfrange <0020> <0025> <0041> <0030> <0032> [<0061> <0062> <0063>] endbfrange endcmap CMapName currentdict /CMap defineresource pop end end".to_vec() }
+
+/// the entry points; `kind` selects which one consumes the bytes
+fn consume(kind: &str, bytes: &[u8]) {
+    match kind {
+        "doc" => {
+            if let Ok(doc) = Document::load_mem(bytes) {
+                // touch what loading produced: pages, text, streams
+                let pages = doc.get_pages();
+                for (n, id) in pages.iter().take(4) { let _ = doc.get_page_content(*id); let _ = doc.extract_text(&[*n]); }
+                for (_, o) in doc.objects.iter().take(50) { if let Object::Stream(s) = o { let _ = s.decompressed_content(); } }
+            }
+            let _ = lopdf::IncrementalDocument::load_mem(bytes);
+        }
+        "content" => { let _ = Content::decode(bytes); }
+        "cmap" => {
+            let mut font = lopdf::Dictionary::new();
+            font.set("Type", name(b"Font")); font.set("Encoding", name(b"Identity-H"));
+            let mut d = Document::with_version("1.5");
+            let sid = d.add_object(Stream::new(lopdf::Dictionary::new(), bytes.to_vec()));
+            font.set("ToUnicode", Object::Reference(sid));
+            if let Ok(enc) = font.get_font_encoding(&d) { for code in [&b"\x00\x03"[..], b"\x00\x10\x00\x22", b"\x00\x31\xff", b"\xff\xff\xff\xff\x01"] { let _ = enc.bytes_to_string(code); } }
+        }
+        "text" => { let _ = lopdf::decode_text_string(&Object::string_literal(bytes.to_vec())); }
+        "filter" => {
+            // bytes = filter selector, parameters, data
+            if bytes.len() < 4 { return; }
+            let names: [&[u8]; 3] = [b"FlateDecode", b"LZWDecode", b"ASCII85Decode"];
+            let mut dict = lopdf::Dictionary::new();
+            dict.set("Filter", Object::Name(names[(bytes[0] % 3) as usize].to_vec()));
+            let big = [1i64, 0, -1, 2, 255, 65536, i32::MAX as i64, i64::MAX, 1 << 40];
+            let mut p = lopdf::Dictionary::new();
+            p.set("Predictor", 10 + (bytes[1] % 6) as i64); p.set("Columns", big[(bytes[1] / 6 % 9) as usize]); p.set("Colors", big[(bytes[2] % 9) as usize]); p.set("BitsPerComponent", big[(bytes[2] / 9 % 9) as usize]); p.set("EarlyChange", (bytes[3] % 2) as i64);
+            dict.set("DecodeParms", p);
+            let s = Stream::new(dict, bytes[4..].to_vec());
+            let _ = s.decompressed_content();
+        }
+        _ => {}
+    }
 }
 
-pub fn replay(_v: &Value) -> Result<(), String> {
-    Err("no replay".into())
+/// deterministic list of hostile inputs derived from one seed
+fn mutations(kind: &str, seed: &[u8], thorough: bool) -> Vec<Vec<u8>> {
+    let mut out = vec![];
+    let vals: Vec<u8> = if thorough { (0..=255).collect() } else { vec![0, 9, 10, 13, 32, b'(', b')', b'<', b'>', b'[', b']', b'/', b'%', b'#', b'\\', b'0', b'9', b'-', b'.', b'R', b'z', b'~', 127, 128, 255] };
+    for i in 0..seed.len() { for v in &vals { if seed[i] != *v { let mut m = seed.to_vec(); m[i] = *v; out.push(m); } } }
+    // truncations and splices
+    for i in 0..seed.len() { out.push(seed[..i].to_vec()); if i % 7 == 0 { let mut m = seed[..i].to_vec(); m.extend_from_slice(&seed[i / 2..]); out.push(m); } }
+    // numeric extremes in every digit run
+    let mut i = 0;
+    while i < seed.len() {
+        if seed[i].is_ascii_digit() { let mut j = i; while j < seed.len() && seed[j].is_ascii_digit() { j += 1; } for e in EXTREMES { let mut m = seed[..i].to_vec(); m.extend_from_slice(e.as_bytes()); m.extend_from_slice(&seed[j..]); out.push(m); } i = j; } else { i += 1; }
+    }
+    if kind == "doc" {
+        // W widths and Index/Size extremes spelled out, Prev / Length cycles
+        for w in ["[0 0 0]", "[1 0 0]", "[0 1 0]", "[9 9 9]", "[1 100000000000 1]", "[-1 2 1]", "[1 2]", "[4294967296 1 1]", "[8 8 8]"] {
+            if let Some(p) = find(seed, b"/W[") { let e = p + seed[p..].iter().position(|c| *c == b']').unwrap_or(0) + 1; let mut m = seed[..p].to_vec(); m.extend_from_slice(b"/W"); m.extend_from_slice(w.as_bytes()); m.extend_from_slice(&seed[e..]); out.push(m.clone());
+                for idx in ["/Index[0 9223372036854775807]", "/Index[9223372036854775807 2]", "/Index[0 1000000000]", "/Index[-5 10]"] { let mut m2 = m.clone(); if let Some(q) = find(&m2, b"/Length") { let tail = m2.split_off(q); m2.extend_from_slice(idx.as_bytes()); m2.extend_from_slice(&tail); out.push(m2); } } }
+        }
+        if let Some(p) = find(seed, b"/Prev ") { let mut m = seed.to_vec(); let own = find(seed, b"startxref\n").map(|q| &seed[q + 10..]).and_then(|t| std::str::from_utf8(&t[..t.iter().position(|c| *c == b'\n').unwrap_or(0)]).ok()).unwrap_or("0").to_string(); let e = p + 6 + seed[p + 6..].iter().position(|c| !c.is_ascii_digit()).unwrap_or(0); m.splice(p + 6..e, own.bytes()); out.push(m); }
+        out.push(b"%PDF-1.5\n1 0 obj\n<</Length 1 0 R>>\nstream\nabc\nendstream\nendobj\n2 0 obj\n<</Type/Catalog/Pages 3 0 R>>\nendobj\n3 0 obj\n<</Type/Pages/Kids[3 0 R 3 0 R]/Count 99999999999>>\nendobj\nxref\n0 4\n0000000000 65535 f \n0000000009 00000 n \n0000000068 00000 n \n0000000113 00000 n \ntrailer\n<</Size 4/Root 2 0 R>>\nstartxref\n182\n%%EOF".to_vec());
+    }
+    // nesting depth sweeps
+    let depths: Vec<usize> = if thorough { vec![50, 99, 100, 101, 300, 3000, 20000, 100000] } else { vec![99, 100, 101, 300, 3000] };
+    for d in depths { for (o, c) in [("[", "]"), ("<<", ">>"), ("(", ")"), ("<</A", ">>")] {
+        let nested = format!("{}{}", o.repeat(d), c.repeat(d));
+        match kind { "content" => { let mut m = nested.clone().into_bytes(); m.extend_from_slice(b" Tj"); out.push(m); }
+                     "doc" => { let mut m = b"%PDF-1.5\n1 0 obj\n".to_vec(); m.extend_from_slice(nested.as_bytes()); let xr = m.len() + 8; m.extend_from_slice(format!("\nendobj\nxref\n0 2\n0000000000 65535 f \n0000000009 00000 n \ntrailer\n<</Size 2/Root 1 0 R>>\nstartxref\n{}\n%%EOF", xr).as_bytes()); out.push(m); }
+                     _ => {} }
+    } }
+    out
+}
+fn find(h: &[u8], n: &[u8]) -> Option<usize> { h.windows(n.len()).position(|w| w == n) }
+
+fn all_jobs(thorough: bool) -> Vec<(String, Vec<u8>)> {
+    let mut jobs: Vec<(String, Vec<u8>)> = vec![];
+    for (_, s) in seeds() { for m in mutations("doc", &s, thorough) { jobs.push(("doc".into(), m)); } }
+    for m in mutations("content", &content_seed(), thorough) { jobs.push(("content".into(), m)); }
+    for m in mutations("cmap", &cmap_seed(), thorough) { jobs.push(("cmap".into(), m)); }
+    for m in mutations("text", b"\xfe\xff\xd8\x3d\xde\x00\x00a", true) { jobs.push(("text".into(), m)); }
+    // filters: all selector/parameter bytes over three payloads
+    for a in 0..3u8 { for b in 0..54u8 { for c in (0..81u8).step_by(if thorough { 1 } else { 5 }) { for e in 0..2u8 { for payload in [&b"x\x9c\x03\x00\x00\x00\x00\x01"[..], b"\x02abc\x01def\x04xyz\x03pqr\x00", b"s8W-!s8W-\"zz!!~>"] { let mut m = vec![a, b, c, e]; m.extend_from_slice(payload); jobs.push(("filter".into(), m)); } } } } }
+    jobs
+}
+
+/// worker: runs jobs[from..to] announcing each index first
+pub fn worker(from: usize, to: usize, thorough: bool) {
+    let jobs = all_jobs(thorough);
+    let h = std::thread::Builder::new().stack_size(2 * 1024 * 1024).spawn(move || {
+        let out = std::io::stdout();
+        for i in from..to.min(jobs.len()) {
+            { let mut o = out.lock(); let _ = writeln!(o, "@{}", i); let _ = o.flush(); }
+            let (k, b) = &jobs[i];
+            if let Err(p) = guarded(|| consume(k, b)) {
+                let mut o = out.lock(); let _ = writeln!(o, "!{} {}", i, p.replace('\n', " ")); let _ = o.flush();
+            }
+        }
+        let mut o = out.lock(); let _ = writeln!(o, "@done"); let _ = o.flush();
+    }).unwrap();
+    let _ = h.join();
+}
+
+fn spawn(from: usize, to: usize, thorough: bool) -> std::process::Child {
+    let exe = std::env::current_exe().unwrap();
+    Command::new("sh").arg("-c").arg(format!("ulimit -v 4000000; exec {} c04-worker {} {} {}", exe.display(), from, to, if thorough { "thorough" } else { "quick" }))
+        .stdout(Stdio::piped()).stderr(Stdio::null()).spawn().expect("spawn worker")
+}
+
+pub fn run(thorough: bool) -> Report {
+    let jobs = all_jobs(thorough);
+    let mut rep = Report::new("seeds: 4 small documents (table / xref stream / Flate+predictor xref stream with object stream / incremental), a content stream, a ToUnicode CMap, a text string; inputs: every single-byte substitution (quick: 25 lexically significant values, thorough: all 256) at every offset, every truncation, splices, 17 numeric extremes in every digit run, W/Index/Prev/Length/Kids constructions, nesting depth up to 3000 (thorough 100000) for [ << ( and dictionaries, all filter-parameter selector combinations; each in a worker with a 2 MiB stack, 4 GB address space and a 10 s watchdog", false);
+    let n = jobs.len();
+    let workers = 16usize;
+    let chunk = (n + workers - 1) / workers;
+    let results: Vec<Vec<(usize, String)>> = std::thread::scope(|sc| {
+        let hs: Vec<_> = (0..workers).map(|w| sc.spawn(move || {
+            let mut fails = vec![];
+            let mut from = w * chunk; let to = ((w + 1) * chunk).min(n);
+            while from < to {
+                let mut child = spawn(from, to, thorough);
+                let stdout = child.stdout.take().unwrap();
+                let (tx, rx) = std::sync::mpsc::channel::<String>();
+                std::thread::spawn(move || { for l in BufReader::new(stdout).lines().flatten() { if tx.send(l).is_err() { break; } } });
+                let mut last: Option<usize> = None; let mut done = false; let mut hung = false;
+                let mut note = |l: &str, fails: &mut Vec<(usize, String)>| { if let Some(rest) = l.strip_prefix('!') { let mut it = rest.splitn(2, ' '); if let Some(i) = it.next().and_then(|x| x.parse().ok()) { fails.push((i, format!("panic: {}", it.next().unwrap_or("")))); } } };
+                let mut t0 = Instant::now();
+                loop {
+                    match rx.recv_timeout(Duration::from_millis(500)) {
+                        Ok(l) => { t0 = Instant::now(); note(&l, &mut fails); if l == "@done" { done = true; } else if let Some(i) = l.strip_prefix('@').and_then(|x| x.parse().ok()) { last = Some(i); } }
+                        Err(std::sync::mpsc::RecvTimeoutError::Timeout) => { if t0.elapsed() > Duration::from_secs(10) { hung = true; let _ = child.kill(); break; } if let Ok(Some(_)) = child.try_wait() { while let Ok(l) = rx.try_recv() { note(&l, &mut fails); if l == "@done" { done = true; } else if let Some(i) = l.strip_prefix('@').and_then(|x| x.parse().ok()) { last = Some(i); } } break; } }
+                        Err(_) => break,
+                    }
+                }
+                let status = child.wait().ok();
+                if done { break; }
+                let culprit = last.unwrap_or(from);
+                let how = if hung { "no progress for 10 s (hang)".to_string() } else { format!("worker died: {:?}", status) };
+                fails.push((culprit, how));
+                from = culprit + 1;
+            }
+            fails
+        })).collect();
+        hs.into_iter().map(|h| h.join().unwrap()).collect()
+    });
+    rep.evaluations = n as u64; rep.nontrivial = n as u64;
+    for (i, how) in results.into_iter().flatten() {
+        let (k, b) = &jobs[i];
+        let ob = if how.contains("hang") { "no-hang" } else if how.starts_with("panic") { "no-panic" } else { "no-abort" };
+        let d = format!("entry point {:?}: {} on a {}-byte input starting {:?}", k, how, b.len(), String::from_utf8_lossy(&b[..b.len().min(60)]));
+        rep.fail(&format!("{}-{}", ob, k), d.clone(), json!({"kind": k, "bytes": hex(&b[..b.len().min(200_000)]), "len": b.len()}), d);
+    }
+    rep.sample(format!("{} hostile inputs, e.g. {:?}", n, String::from_utf8_lossy(&jobs[n / 3].1[..jobs[n / 3].1.len().min(50)])));
+    rep
+}
+
+pub fn replay(v: &Value) -> Result<(), String> {
+    let kind = v["kind"].as_str().unwrap_or("doc").to_string();
+    let bytes = unhex(v["bytes"].as_str().unwrap_or(""));
+    let path = std::env::temp_dir().join(format!("c04_replay_{}.bin", std::process::id()));
+    std::fs::write(&path, &bytes).map_err(|e| e.to_string())?;
+    let exe = std::env::current_exe().unwrap();
+    let mut child = Command::new("sh").arg("-c").arg(format!("ulimit -v 4000000; exec {} c04-one {} {}", exe.display(), kind, path.display())).stdout(Stdio::null()).stderr(Stdio::null()).spawn().map_err(|e| e.to_string())?;
+    let t0 = Instant::now();
+    loop {
+        if let Ok(Some(st)) = child.try_wait() { let _ = std::fs::remove_file(&path); return if st.success() { Ok(()) } else { Err(format!("worker died: {:?}", st)) }; }
+        if t0.elapsed() > Duration::from_secs(10) { let _ = child.kill(); let _ = std::fs::remove_file(&path); return Err("no result within 10 s (hang)".into()); }
+        std::thread::sleep(Duration::from_millis(50));
+    }
+}
+
+pub fn one(kind: &str, path: &str) {
+    let bytes = std::fs::read(path).unwrap_or_default();
+    let k = kind.to_string();
+    let h = std::thread::Builder::new().stack_size(2 * 1024 * 1024).spawn(move || consume(&k, &bytes)).unwrap();
+    if h.join().is_err() { std::process::exit(101); }
 }
